@@ -171,7 +171,13 @@ def container_catalogue(tier):
             out.append(("Dict[Str,%s]" % name,
                         {"k": "Dict", "key": {"k": "Str", "o": {"transform_strip": True}} if name is not None else None,
                          "val": specs[name], "o": _clean({"required": req})}, dvals))
-    # key field with a non-trivial encoding is outside the formats' string-keyed domain: only string keys
+    # key fields whose on-disk form is a string (bytes as hex / base64) stay inside the formats' string-keyed domain
+    for enc in ("hex", "base64"):
+        kspec = {"k": "Bytes", "o": {"encoding": enc}}
+        dvals = [D(), D((Y(b"\xde\xad"), 1)), D((Y(b"ab"), 1), ("cd", "2")), D((Y(b"\x00\xff"), 9), (Y(b""), 0)), D((5, 1))] + WRONG
+        out.append(("Dict[Bytes-%s,Int09]" % enc, {"k": "Dict", "key": kspec, "val": specs["Int09"], "o": {}}, dvals))
+        out.append(("Dict[Bytes-%s,Bytes64]" % enc, {"k": "Dict", "key": kspec, "val": specs["Bytes64"], "o": {}},
+                    [D((Y(b"\xde\xad"), Y(b"\xbe\xef"))), D(("k", "v"))]))
     return out
 
 
